@@ -3,6 +3,7 @@
   run of the model; the message sequence does not depend on how the byte stream is fragmented.
 -/
 import Rbgp.Wire.Proofs
+import Rbgp.Wire.ErrClass
 set_option linter.unusedSimpArgs false
 set_option linter.unusedVariables false
 namespace Rbgp.Wire
@@ -12,7 +13,7 @@ open Spec
 def srecOf : Rec → SRec
   | .msg n rem _ => .msg n rem
   | .more rem => .more rem
-  | .err _ n rem => .err n rem
+  | .err e n rem => .errc n rem e.code e.sub
   | .panic => .panic
   | .stall => .stall
 
@@ -27,7 +28,7 @@ theorem isFrame_of_msg {dec : HypDec} {p : Profile} {c : Codec} {src : Bytes} {n
   obtain ⟨h1, h2, h3, h4, h5⟩ := tryParse_msg h
   simp [isFrame, h2, h1, h3, h4, h5]
 
-theorem drain_check {dec : HypDec} (hd : dec.NP) (p : Profile) (c : Codec) (buf : Bytes) :
+theorem drain_check {dec : HypDec} (hd : dec.NP) (hde : dec.E3) (p : Profile) (c : Codec) (buf : Bytes) :
     ∀ (i : Nat) (rest : List Bytes) (K : List SRec),
       (∀ b, (drain dec p c buf).2 = some b →
         ∃ i', checkBgp c.maxLen i buf rest ((drain dec p c buf).1.map srecOf ++ K) = afterMore c.maxLen i' b rest K) ∧
@@ -53,10 +54,11 @@ theorem drain_check {dec : HypDec} (hd : dec.NP) (p : Profile) (c : Codec) (buf 
     · intro b hb; simp at hb
     · intro _
       have hn := tryParse_err he
+      have hcl := tryParse_err_class hde he
       simp only [List.map_cons, List.map_nil, srecOf]
       unfold checkBgp
       have : n + (buf.length - n) = buf.length := by omega
-      simp [this]
+      simp [this, hcl]
   | case4 buf n m hm hn r ih =>
     intro i rest K
     have hf := isFrame_of_msg hm
@@ -80,7 +82,7 @@ theorem drain_check {dec : HypDec} (hd : dec.NP) (p : Profile) (c : Codec) (buf 
     obtain ⟨h1, h2, h3, h4, h5⟩ := tryParse_msg hm
     exact absurd ⟨by omega, h5⟩ hn
 
-theorem bgpStream_check {dec : HypDec} (hd : dec.NP) (p : Profile) (c : Codec) :
+theorem bgpStream_check {dec : HypDec} (hd : dec.NP) (hde : dec.E3) (p : Profile) (c : Codec) :
     ∀ (rest : List Bytes) (buf0 ch : Bytes) (i : Nat),
       checkBgp c.maxLen i (buf0 ++ ch) rest ((bgpStream dec p c buf0 (ch :: rest)).map srecOf) = .ok := by
   intro rest
@@ -88,7 +90,7 @@ theorem bgpStream_check {dec : HypDec} (hd : dec.NP) (p : Profile) (c : Codec) :
   | nil =>
     intro buf0 ch i
     unfold bgpStream
-    have hdc := drain_check hd p c (buf0 ++ ch) i [] []
+    have hdc := drain_check hd hde p c (buf0 ++ ch) i [] []
     cases hdr : drain dec p c (buf0 ++ ch) with
     | mk rs ob =>
       rw [hdr] at hdc
@@ -105,7 +107,7 @@ theorem bgpStream_check {dec : HypDec} (hd : dec.NP) (p : Profile) (c : Codec) :
     | mk rs ob =>
       cases ob with
       | some b =>
-        have hdc := drain_check hd p c (buf0 ++ ch) i (ch' :: rest')
+        have hdc := drain_check hd hde p c (buf0 ++ ch) i (ch' :: rest')
           ((bgpStream dec p c b (ch' :: rest')).map srecOf)
         rw [hdr] at hdc
         obtain ⟨i', hi'⟩ := hdc.1 b rfl
@@ -113,18 +115,18 @@ theorem bgpStream_check {dec : HypDec} (hd : dec.NP) (p : Profile) (c : Codec) :
         rw [hi']
         exact ih b ch' (i' + 1)
       | none =>
-        have hdc := drain_check hd p c (buf0 ++ ch) i (ch' :: rest') []
+        have hdc := drain_check hd hde p c (buf0 ++ ch) i (ch' :: rest') []
         rw [hdr] at hdc
         exact hdc.2 rfl
 
 /-- master theorem (BGP): the C03 reference checker accepts every run of the model -/
-theorem check_bgp_ok {dec : HypDec} (hd : dec.NP) (p : Profile) (c : Codec) (chunks : List Bytes) :
+theorem check_bgp_ok {dec : HypDec} (hd : dec.NP) (hde : dec.E3) (p : Profile) (c : Codec) (chunks : List Bytes) :
     checkBgpCase c.maxLen chunks ((bgpStream dec p c [] chunks).map srecOf) = .ok := by
   unfold checkBgpCase
   cases chunks with
   | nil => simp [bgpStream]
   | cons ch rest =>
-    have := bgpStream_check hd p c rest [] ch 0
+    have := bgpStream_check hd hde p c rest [] ch 0
     simpa using this
 
 /-! ## fragmentation independence -/
@@ -441,10 +443,11 @@ theorem rtrDrain_check (buf : Bytes) :
   | case3 buf hp => exact absurd hp (rtrDecode_spec buf).1
   | case4 buf m n hm hn r ih =>
     intro i rest K
-    obtain ⟨h8, hle, _⟩ := (rtrDecode_spec buf).2.1 m n hm
+    obtain ⟨h8, hle, hdecl⟩ := (rtrDecode_spec buf).2.1 m n hm
     obtain ⟨ih1, ih2⟩ := ih (i + 1) rest K
     have c1 : ¬ n < 8 := by omega
     have c2 : ¬ (n > buf.length ∨ buf.length - n ≠ buf.length - n) := by omega
+    have c3 : ¬ (declaredRtr buf ≠ some n) := by simp [hdecl]
     constructor
     · intro b hb
       simp only at hb
@@ -452,13 +455,13 @@ theorem rtrDrain_check (buf : Bytes) :
       refine ⟨i', ?_⟩
       simp only [List.map_cons, rsrecOf, List.cons_append]
       rw [checkRtr]
-      simp only [c1, c2, if_false]
+      simp only [c1, c2, c3, if_false]
       exact hi'
     · intro hb
       simp only at hb
       simp only [List.map_cons, rsrecOf]
       rw [checkRtr]
-      simp only [c1, c2, if_false]
+      simp only [c1, c2, c3, if_false]
       exact ih2 hb
   | case5 buf m n hm hn =>
     obtain ⟨h8, hle, _⟩ := (rtrDecode_spec buf).2.1 m n hm
